@@ -346,7 +346,17 @@ class NumpyStub:
         items = self.norm_index(a, idx)
         if (a.ndim == 1 and len(items) == 1 and isinstance(items[0], slice)
                 and any(isinstance(raw(c), Sym) and isinstance(raw(concretize(raw(c))), Sym) for c in (items[0].start, items[0].stop))):
-            return self.sym_slice_1d(a, items[0])
+            r = self.sym_slice_1d(a, items[0])
+            if isinstance(r, tuple):
+                _, lo_t, k = r
+                per_axis = [("symwin", lo_t, k)]
+                vals = []
+                for j in range(k):
+                    vals.append(self.sym_read(a, [None], [("sym", z3.simplify(lo_t + j))]))
+                if for_write:
+                    return WindowView(self, a, lo_t, k, vals)
+                return Arr.from_list(vals, (k,), a.dtype)
+            return r
         if any(isinstance(x, (Arr, list)) for x in items):
             return self.advanced_index(a, items)
         # basic indexing (+ symbolic integers)
@@ -459,6 +469,16 @@ class NumpyStub:
             t = z3.If(t < 0, t + n, t)
             return z3.simplify(z3.If(t < 0, 0, z3.If(t > n, n, t)))
         lo, hi = bound(s.start, 0), bound(s.stop, n)
+        if s.start is not None and s.stop is not None:
+            # a[lo : lo + k] with a concrete length k: a window at a symbolic offset
+            d = z3.simplify(term_of(raw(s.stop), "int") - term_of(raw(s.start), "int"))
+            if z3.is_int_value(d):
+                k = d.as_long()
+                lo_t = term_of(raw(s.start), "int")
+                if k >= 0 and self.I.ctx.branch(z3.And(lo_t >= 0, lo_t + k <= n)):
+                    return ("window", z3.simplify(lo_t), k)
+                if k >= 0:
+                    raise Untranslatable("window slice with symbolic offset partly outside the array")
         return SliceArr(a, lo, hi)
 
     def mask_select(self, a, mask):
@@ -571,7 +591,7 @@ class NumpyStub:
                     a.store[p] = raw(ite(m, vv, a.store[p]))
             return
         target = self.getitem(a, idx, for_write=True)
-        if isinstance(target, SymView):
+        if isinstance(target, (SymView, WindowView)):
             return target.assign(v)
         if not isinstance(target, Arr):
             # scalar position
@@ -1018,10 +1038,31 @@ class NumpyStub:
     def f_ascontiguousarray(self, x, dtype=None):
         return self.as_arr(x, dtype)
 
+    def concretize_extent(self, v, what="array extent"):
+        """extent given by a symbolic int: in bounded mode (I.extent_cap set) enumerate its values by branching,
+        up to the cap (larger values are excluded from this bounded run: recorded as an assumption)."""
+        v0 = raw(v)
+        if isinstance(v0, Sym):
+            v0 = raw(concretize(v0))
+        if not isinstance(v0, Sym):
+            return self.I.concrete_int(v0, what)
+        cap = getattr(self.I, "extent_cap", None)
+        if cap is None:
+            raise Untranslatable(f"symbolic {what}")
+        t = term_of(v0, "int")
+        for k in range(0, cap + 1):
+            if self.I.ctx.branch(t == k):
+                return k
+        if self.I.ctx.branch(t < 0):
+            return -1
+        self.I.ctx.notes.append(f"bounded: {what} > {cap} not explored")
+        from .interp import PathInfeasible
+        raise PathInfeasible()
+
     def shape_arg(self, shape):
         if isinstance(shape, (tuple, list)):
-            return tuple(self.I.concrete_int(s, "array extent") for s in shape)
-        return (self.I.concrete_int(shape, "array extent"),)
+            return tuple(self.concretize_extent(s) for s in shape)
+        return (self.concretize_extent(shape),)
 
     def f_zeros(self, shape, dtype=float, **k):
         dt = self.to_dtype(dtype)
@@ -1068,10 +1109,13 @@ class NumpyStub:
         if any(isinstance(v, Sym) for v in vals):
             vals = [raw(concretize(v)) if isinstance(v, Sym) else v for v in vals]
         if any(isinstance(v, Sym) for v in vals):
-            if len(vals) == 1:
+            if len(vals) == 1 and getattr(self.I, "extent_cap", None) is None:
                 from . import tarr
                 return tarr.arange(self, vals[0], dtype)
-            raise Untranslatable("np.arange(start, stop) with symbolic bounds")
+            if len(vals) == 1:
+                vals = [self.concretize_extent(vals[0], "arange length")]
+            else:
+                raise Untranslatable("np.arange(start, stop) with symbolic bounds")
         r = _np.arange(*vals, dtype=dtype)
         return self.mk_arr([x.item() for x in r], r.shape, r.dtype)
 
@@ -1693,6 +1737,26 @@ class SymView:
                 else:
                     per2.append(p)
             self.np.sym_write(a, per2, vv)
+
+
+class WindowView:
+    """a[lo : lo+k] of a 1-D array with symbolic offset lo and concrete length k (write-through)."""
+
+    def __init__(self, np_, base, lo, k, vals):
+        self.np = np_
+        self.base = base
+        self.lo = lo
+        self.k = k
+        self.vals = vals
+
+    def assign(self, v):
+        if isinstance(v, (Arr, list, tuple)):
+            va = self.np.as_arr(v)
+            vals = self.np.bcast_elems(va, (self.k,))
+        else:
+            vals = [raw(v)] * self.k
+        for j, x in enumerate(vals):
+            self.np.sym_write(self.base, [("sym", z3.simplify(self.lo + j))], cast_elem(x, self.base.dtype))
 
 
 class _UFuncNS:
